@@ -30,3 +30,15 @@ Print Assumptions C07_update.
 Example C07_example :
   ais_spec [8;13;4;0;6;11;9;0;2;0;1;5;10;6;7;8;13;4;13;2;2;0;10;10;4;11;13;10] = str "EZY85MH".
 Proof. vm_compute. reflexivity. Qed.
+
+(** ---- through the whole pipeline ---- *)
+From SQ Require Import Base Table Update Ia5 TableProofs TotalPipeline EndToEnd.
+Local Open Scope N_scope.
+
+(** an accepted identification squitter (TC 1-4) for an aircraft already in the table sets callsign and category, on both paths *)
+Theorem C07_end_to_end : forall (o : opts) (now : Z) (s : state) (line : list N) (s' : state) (rf : bool) (a : N) (r : row) (m : list N), step_line o now s line = Ok (s', rf, Applied 17 a) -> lookup (tbl s) a = Some r -> (0 < delete_after o)%Z -> get_message line = Ok (Some m) -> 1 <= field m 33 37 <= 4 -> exists r' : row, lookup (tbl s') a = Some r' /\ r_ais r' = Some (ais_spec m) /\ category r' = (field m 33 37, field m 38 40).
+Proof. exact callsign_end_to_end. Qed.
+Check C07_end_to_end : forall (o : opts) (now : Z) (s : state) (line : list N) (s' : state) (rf : bool) (a : N) (r : row) (m : list N), step_line o now s line = Ok (s', rf, Applied 17 a) -> lookup (tbl s) a = Some r -> (0 < delete_after o)%Z -> get_message line = Ok (Some m) -> 1 <= field m 33 37 <= 4 -> exists r' : row, lookup (tbl s') a = Some r' /\ r_ais r' = Some (ais_spec m) /\ category r' = (field m 33 37, field m 38 40).
+Print Assumptions C07_end_to_end.
+
+
